@@ -78,6 +78,8 @@ class Execution:
             mod = self.sim.procs[vt.proc].module
             while i < len(ops):
                 op = ops[i]
+                # user code: every operation (request or release) is preceded by a scheduling point
+                self.sim.yield_point("body", None)
                 if op["k"] == "rel":
                     return i
                 self.cur_req[t] = (i, op)
@@ -90,7 +92,6 @@ class Execution:
                         self.phase[t] = "holding"
                         self.outcomes[t].append("granted")
                         self.log("Enter", t)
-                        self.sim.yield_point("body", None)
                         j = run_ops(vt, i + 1)
                         self.log("Exit", t)
                         self.phase[t] = "releasing"
@@ -114,10 +115,32 @@ class Execution:
 
         return runner
 
+    def prestart(self):
+        """advance every thread from thread start to the user-code point before its first operation"""
+        for t in sorted(self.programs):
+            if self.sim.pending_kind(t) == "start":
+                self.sim.step(t)
+
+    def note_quiet(self):
+        sim = self.sim
+        en = sim.enabled()
+        if en and all(sim.pending_kind(t) == "body" for t in en):
+            blocked = [t for t in sim.unfinished() if t not in en and self.phase[t] == "acquiring"]
+            if blocked:
+                key = (tuple(blocked), tuple(sorted((t, self.cur_req[t][0]) for t in blocked)), len(self.events))
+                self.events.append({"e": "Quiet", "blocked": blocked, "k": self._k()})
+
     def note_blocked(self):
         sim = self.sim
         for t in sim.unfinished():
             if self.phase[t] == "acquiring" and not sim.is_enabled(t):
+                kind, obj, _a = sim.threads[t].pending
+                if kind in ("lock", "rlock"):
+                    # waiting for a mutex whose holder is runnable is transient mutual exclusion, not waiting for
+                    # a lock holder: it only counts when the holder itself cannot run
+                    owner = getattr(obj, "owner", None)
+                    if owner is None or owner not in sim.threads or sim.is_enabled(owner):
+                        continue
                 key = (t, self.cur_req[t][0], sim.pending_kind(t))
                 if key not in self.blocked_logged:
                     self.blocked_logged.add(key)
@@ -128,6 +151,7 @@ class Execution:
         sim = self.sim
         schedule = []
         try:
+            self.prestart()
             n = 0
             while True:
                 en = sim.enabled()
@@ -137,6 +161,7 @@ class Execution:
                 sim.step(t)
                 schedule.append(t)
                 self.note_blocked()
+                self.note_quiet()
                 n += 1
                 if n > max_steps:
                     raise core.MachineryError("execution did not terminate within max_steps")
@@ -245,6 +270,56 @@ def pct_chooser(rng, nthreads, depth=3, est_len=60):
     return ch
 
 
+def dfs_program(arg):
+    """Systematic exploration of the schedules of one program tuple on the real code: stateless DFS with a
+    pre-emption bound (switching away from a thread that could continue costs one pre-emption; switching when the
+    running thread is blocked or finished is free).  Returns one result per executed schedule."""
+    programs, procof, bound, max_runs = arg
+    results = []
+    stack = [[]]
+    seen = set()
+    while stack and len(results) < max_runs:
+        prefix = stack.pop()
+        ex = Execution(programs, procof)
+        record = []  # (enabled, chosen, current-before)
+        cur = [None]
+
+        def chooser(n, en, ex_):
+            if n < len(prefix) and prefix[n] in en:
+                t = prefix[n]
+            elif cur[0] in en:
+                t = cur[0]
+            else:
+                t = en[0]
+            record.append((list(en), t, cur[0]))
+            cur[0] = t
+            return t
+
+        sched = ex.run(chooser)
+        key = tuple(sched)
+        if key in seen:
+            continue
+        seen.add(key)
+        results.append({"programs": programs, "procof": procof, "schedule": sched, "trace": ex.trace(), "errors": ex.errors,
+                        "outcomes": ex.outcomes})
+        # pre-emptions used along the executed schedule
+        used = 0
+        pre = []
+        for en, t, c in record:
+            pre.append(used)
+            if c is not None and c in en and t != c:
+                used += 1
+        for i in range(len(record) - 1, len(prefix) - 1, -1):
+            en, t, c = record[i]
+            for alt in en:
+                if alt == t:
+                    continue
+                cost = 1 if (c is not None and c in en and alt != c) else 0
+                if pre[i] + cost <= bound:
+                    stack.append(sched[:i] + [alt])
+    return results
+
+
 def run_one(arg):
     programs, procof, mode, seed = arg
     rng = random.Random(seed)
@@ -344,6 +419,28 @@ def main(tier: str, seed: int) -> int:
         programs = {t: random_program(rng, rng.choice([1, 2, 2, 3]), paths) for t in procof}
         work.append((programs, procof, rng.choice(["random", "pct"]), rng.randrange(1 << 30)))
     results = core.pmap(run_one, work, procs=16, chunk=16)
+    # systematic part: pre-emption-bounded DFS over the schedules of small programs
+    core_programs = []
+    P = PATHS[0]
+    singles = [acq(P, sh, bl, re) for sh in (True, False) for bl in (True, False) for re in (False,)]
+    for a in singles:
+        for b in singles:
+            for procof in ({1: 1, 2: 1}, {1: 1, 2: 2}):
+                core_programs.append(({1: [a, REL], 2: [b, REL]}, procof))
+    ups = [[acq(P, True, True, r1), acq(P, sh2, bl2, True), REL, REL] for r1 in (False, True) for sh2 in (True, False) for bl2 in (True, False)]
+    for u in ups:
+        for b in (acq(P, True), acq(P, False)):
+            for procof in ({1: 1, 2: 1}, {1: 1, 2: 2}):
+                core_programs.append(({1: u, 2: [b, REL]}, procof))
+    seq2 = [acq(P, True), REL, acq(P, False), REL]
+    core_programs.append(({1: seq2, 2: seq2, 3: [acq(P, True), REL]}, {1: 1, 2: 1, 3: 2}))
+    rng.shuffle(core_programs)
+    n_core = {"quick": 40, "thorough": len(core_programs)}[tier]
+    bound, max_runs = {"quick": (2, 400), "thorough": (3, 6000)}[tier]
+    dfs_res = core.pmap(dfs_program, [(pr, po, bound, max_runs) for pr, po in core_programs[:n_core]], procs=16, chunk=1)
+    flat = [r for rs in dfs_res for r in rs]
+    v.add_coverage(dfs_programs=n_core, dfs_schedules=len(flat), dfs_preemption_bound=bound)
+    results = results + flat
     acc = judge(results, v)
     v.add_coverage(
         random_executions=len(results),
